@@ -32,19 +32,19 @@ CONVERSIONS = ("CvtToFuzzy", "CvtToFuzzyZScore", "CvtToFuzzyCat", "CvtToFuzzyCur
                "Normalize", "NormalizeZScore", "NormalizeCat", "NormalizeCurve", "NormalizeMeanToMid", "NormalizeCurveZScore")
 
 
-def delegation(ctx, idx, d, r, base_name):
+def delegation(ctx, idx, d, r, base_name, rule="C08.a"):
     fi = d.cls.methods.get("execute")
     con = "%s.execute::delegates-to-%s" % (d.key, base_name)
     if fi is None:
-        ctx.violate("C08.a", con, d.module.rel, d.cls.node.lineno, "%s no longer defines the clamped delegation to %s" % (d.cls.name, base_name))
+        ctx.violate(rule, con, d.module.rel, d.cls.node.lineno, "%s no longer defines the clamped delegation to %s" % (d.cls.name, base_name))
         return
     base = idx.find_method(d.cls, "execute", after=d.cls)
     if base is None or base.cls.name != base_name:
-        ctx.violate("C08.a", con, d.module.rel, d.cls.node.lineno, "%s derives its body from %s, not from %s" % (d.cls.name, base.cls.name if base else "nothing", base_name))
+        ctx.violate(rule, con, d.module.rel, d.cls.node.lineno, "%s derives its body from %s, not from %s" % (d.cls.name, base.cls.name if base else "nothing", base_name))
         return
     sup = [x for x in r.super_calls if x[3] == fi.key and x[0].func.attr == "execute"]
     if len(sup) != 1:
-        ctx.violate("C08.a", con, d.module.rel, fi.node.lineno, "%s.execute does not call super().execute exactly once" % d.cls.name)
+        ctx.violate(rule, con, d.module.rel, fi.node.lineno, "%s.execute does not call super().execute exactly once" % d.cls.name)
         return
     node, kwsnap, explicit, fk, target = sup[0]
     problems = []
@@ -108,6 +108,17 @@ def delegation(ctx, idx, d, r, base_name):
                 problems.append("the constant %s is passed as %s whatever the caller gave: the command's own %s argument never reaches the base (defaults merged over the arguments instead of under them)" % (v.const, k, k))
             elif isinstance(v, Scal) and v.const is None and ("kw:" + k) not in (v.sym or ""):
                 problems.append("%s does not come from the caller" % k)
+            elif k in kwsnap.optional:
+                # forwarded only when the caller gave it: an omitted argument then takes the base's own default
+                bdef = None
+                for n_ in own_nodes(base.node):
+                    if isinstance(n_, ast.Call) and isinstance(n_.func, ast.Attribute) and n_.func.attr in ("get", "pop", "get_argument_value") and len(n_.args) == 2 and isinstance(n_.args[0], ast.Constant) and n_.args[0].value == k:
+                        try:
+                            bdef = idx.const(base.module, n_.args[1], base)
+                        except Exception:
+                            bdef = "?"
+                if bdef != want:
+                    problems.append("no fuzzy default is supplied for %s: when the argument is omitted %s.execute falls back on its own default %s (normalised space) instead of %d" % (k, base_name, bdef, want))
     # the value returned is the clamped value of that call
     for n, s, v in R.ret_sites(d, r):
         rv = s.value if isinstance(s, ast.Return) else None
@@ -118,9 +129,9 @@ def delegation(ctx, idx, d, r, base_name):
         if not ok:
             problems.append("the returned value is not insure_fuzzy(super().execute(...), -1, 1)")
     if problems:
-        ctx.violate("C08.a", con, d.module.rel, node.lineno, "; ".join(problems[:4]))
+        ctx.violate(rule, con, d.module.rel, node.lineno, "; ".join(problems[:4]))
     else:
-        ctx.hold("C08.a", con, d.module.rel, node.lineno, "forwards %s to %s.execute and clamps the result to [-1, 1]" % (sorted(expected), base_name))
+        ctx.hold(rule, con, d.module.rel, node.lineno, "forwards %s to %s.execute and clamps the result to [-1, 1]" % (sorted(expected), base_name))
 
 
 def sorted_pairs(ctx, idx, d, r):
@@ -246,6 +257,19 @@ def run(ctx, idx):
         d, r = res[name]
         dtype_rule(ctx, "C08.d", d, r)
         R.uses_all_inputs(ctx, "C08.e", d, r)
+        R.leaves_inputs_alone(ctx, "C08.j", d, r, "the first conversion of a field is right, but the field itself now holds converted values, so every later conversion or use of it starts from the wrong raw data")
+    ctx.rule("C08.j", "A conversion reads its field without changing it: no in-place write reaches the input (a second conversion of the same field must see the same raw values).")
+    ctx.rule("C08.k", "Category lookup is exact: NormalizeCat selects the cells of each table entry by equality of the field's values with the raw value (`==`), so a cell matches at most one entry of a duplicate-free table and the outcome does not depend on the order of the table.")
+    d, r = res["NormalizeCat"]
+    sel = [x for x in r.selstores if x[1] is not None and isinstance(x[3], Scal)]
+    con = "%s.execute::category-equality" % d.key
+    if not sel:
+        raise AnalysisError("C08.k: no store selected by a comparison of the field with the raw values found in NormalizeCat")
+    badsel = [x for x in sel if x[1][1] != "Eq"]
+    if badsel:
+        ctx.violate("C08.k", con, d.module.rel, badsel[0][0].lineno, "cells are assigned to a table entry by `%s`, a %s test rather than equality: one cell can match several entries (the later entry wins, so the result depends on the table's order) and cells of an unlisted category next to a listed one get its value instead of the default" % (K.src(badsel[0][0])[:60], badsel[0][1][1]))
+    else:
+        ctx.hold("C08.k", con, d.module.rel, sel[0][0].lineno, "cells selected by equality with the raw value")
     ctx.rule("C08.g", "Optional numeric parameters are never tested by truthiness (an explicit 0 is a legitimate threshold/value).")
     ctx.rule("C08.i", "A clamp never inverts: wherever a conversion limits its result to [lo, hi] the bounds are constants with lo <= hi or a parameter pair documented as (lowest, highest); a clamp between two thresholds that may come in either order turns the whole grid into one constant when lo > hi.")
     for name in CONVERSIONS:
